@@ -131,6 +131,10 @@ func driveC08(t *testing.T, out *vEmitter) {
 		{Email: "noatsign", Groups: []string{""}},
 		{Email: "user@example.com:8080", Groups: []string{"a,b"}},
 		{Email: "user@[::1]", Groups: []string{"dev"}},
+		{Email: "toto@evilexample.com", Groups: []string{"dev"}},
+		{Email: "x@a.b.example.com", Groups: nil},
+		{Email: "x@example.com.evil.test", Groups: nil},
+		{Email: "x@sub.example.org", Groups: nil},
 		nil,
 	}
 	lists := map[string][]string{
@@ -182,6 +186,37 @@ func driveC08(t *testing.T, out *vEmitter) {
 						}
 						if em := ents("allowed_emails"); len(em) > 0 {
 							want = want && em[s.Email]
+						}
+						// domain constraints without ports have an exact reading too: the entry itself, or - for entries written
+						// ".domain" / "*.domain" - the domain and its sub-domains
+						domExact := true
+						if doms := ents("allowed_email_domains"); len(doms) > 0 {
+							at := strings.Split(s.Email, "@")
+							ok := false
+							for e := range doms {
+								if strings.ContainsAny(e, ":[]") {
+									domExact = false
+								}
+								if len(at) != 2 {
+									continue
+								}
+								base := strings.TrimPrefix(strings.TrimPrefix(e, "*."), ".")
+								wild := strings.HasPrefix(e, ".") || strings.HasPrefix(e, "*.")
+								if at[1] == base || (wild && strings.HasSuffix(at[1], "."+base)) {
+									ok = true
+								}
+							}
+							if len(at) == 2 && strings.ContainsAny(at[1], ":[]") {
+								domExact = false
+							}
+							want = want && ok
+						}
+						if domExact && len(ents("allowed_email_domains")) > 0 && got != want {
+							out.Violation("authz/auth-only-constraint", "auth-only answered although a query constraint is not satisfied (or refused although all are)",
+								map[string]interface{}{"query": q, "email": s.Email, "groups": s.Groups, "got": got})
+						}
+						if !domExact {
+							want = got
 						}
 						if len(ents("allowed_email_domains")) == 0 && got != want {
 							out.Violation("authz/auth-only-constraint", "auth-only answered although a query constraint is not satisfied (or refused although all are)",
@@ -369,14 +404,24 @@ func vC08FileReload(t *testing.T, out *vEmitter) {
 			for len(updated) > 0 {
 				<-updated
 			}
-			if err := os.WriteFile(path, []byte(st.content), 0o600); err != nil {
+			if si%2 == 0 {
+				// replaced atomically, as editors, `sed -i`, `mv` and ConfigMap updates do: new file, then rename over
+				tmp := path + ".new"
+				if err := os.WriteFile(tmp, []byte(st.content), 0o600); err != nil {
+					t.Fatal(err)
+				}
+				if err := os.Rename(tmp, path); err != nil {
+					t.Fatal(err)
+				}
+			} else if err := os.WriteFile(path, []byte(st.content), 0o600); err != nil {
 				t.Fatal(err)
 			}
 			select {
 			case <-updated:
-			case <-time.After(5 * time.Second):
-				out.Stat("c08_reload_watcher_silent", 1)
-				return
+			case <-time.After(10 * time.Second):
+				// no reload was signalled within 10 s of the file being replaced: the requests below decide whether
+				// the new contents are in force all the same
+				out.Stat("c08_reload_not_signalled", 1)
 			}
 			// let a second event of the same write (truncate + write) settle
 			for settle := true; settle; {
